@@ -763,6 +763,25 @@ func exprText(x ast.Expr) string {
 
 func (e *Env) quant(kind string, n *ast.CallExpr) *Val {
 	// forall(i, lo, hi, body)  or  forall(x T, body) written as forall(x, T, body)
+	if len(n.Args) == 5 {
+		// forall(i, lo, hi, body, trigger): explicit e-matching pattern
+		id, ok := n.Args[0].(*ast.Ident)
+		if !ok {
+			return e.errf("%s: first arg must be identifier", kind)
+		}
+		lo, hi := e.tr(n.Args[1]), e.tr(n.Args[2])
+		ne := e.child()
+		bv := "q!" + id.Name
+		ne.vars[id.Name] = intVal(bv)
+		body := ne.tr(n.Args[3])
+		pat := ne.tr(n.Args[4])
+		e.errs = append(e.errs, ne.errs[len(e.errs):]...)
+		rng := fmt.Sprintf("(and (<= %s %s) (< %s %s))", lo.T, bv, bv, hi.T)
+		if kind == "forall" {
+			return boolVal(fmt.Sprintf("(forall ((%s Int)) (! (=> %s %s) :pattern (%s)))", bv, rng, body.T, pat.T))
+		}
+		return boolVal(fmt.Sprintf("(exists ((%s Int)) (! (and %s %s) :pattern (%s)))", bv, rng, body.T, pat.T))
+	}
 	if len(n.Args) == 4 {
 		id, ok := n.Args[0].(*ast.Ident)
 		if !ok {
